@@ -20,6 +20,10 @@
 //!       Response: the `L`-style answers of the `H` steps joined by ` %# `.
 //!   `X <esc script>`   prefix closure: every prefix of the script (cut at char boundaries), cursors 0, len/2
 //!       (raw byte), len; the predicate on brush's spans.  Response: `n=<prefixes> calls=… bad=… <preflen>\t<cursor>\t<spans> …`
+//!   `K <extglob 0|1><sh_mode 0|1> <esc line>`   the tokenizer alone: `tokenize_str_with_options(line, opts)` in canonical form
+//!       `ok <tok>*` with tok = `<W|O>:<start>:<end>:<sline>.<scol>:<eline>.<ecol>:<esc text>` (indices count chars, as
+//!       `SourcePosition::index` does) | `err:escape` | `err:single:<index>:<line>.<col>` | `err:double:…` | `err:other:<variant>` | `PANIC:…`
+//!   `KO`   the tokenizer options the start-up shell hands to the highlighter: `<extglob 0|1><sh_mode 0|1>`
 //!   `T <esc line>`   timing of one call (cursor = len): `us=<micros> ok=<0|1> nspans=<n>`
 //! A watchdog thread ends the process (exit code 3, `HANG <esc line> <cursor|tree> <idx>` on stderr)
 //! when one call into brush takes longer than `C19_WATCHDOG_MS` (default 20 s).
@@ -134,6 +138,37 @@ impl Cx<'_> {
             }
             WP::Text(_) => {
                 let _ = write!(out, "L {s} {e} X ");
+            }
+        }
+    }
+}
+
+fn tok_canonical(line: &str, extglob: bool, sh_mode: bool) -> String {
+    let opts = brush_parser::TokenizerOptions { enable_extended_globbing: extglob, posix_mode: false, sh_mode };
+    let pos = |p: &brush_parser::SourcePosition| format!("{}.{}", p.line, p.column);
+    match brush_parser::tokenize_str_with_options(line, &opts) {
+        Ok(tokens) => {
+            let mut out = String::from("ok");
+            for t in tokens {
+                let (k, w, loc) = match &t {
+                    brush_parser::Token::Operator(w, loc) => ('O', w, loc),
+                    brush_parser::Token::Word(w, loc) => ('W', w, loc),
+                };
+                let _ = write!(out, " {k}:{}:{}:{}:{}:{}", loc.start.index, loc.end.index, pos(&loc.start), pos(&loc.end), esc(w));
+            }
+            out
+        }
+        Err(e) => {
+            use brush_parser::TokenizerError as TE;
+            match e {
+                TE::UnterminatedEscapeSequence => "err:escape".to_string(),
+                TE::UnterminatedSingleQuote(p) => format!("err:single:{}:{}", p.index, pos(&p)),
+                TE::UnterminatedDoubleQuote(p) => format!("err:double:{}:{}", p.index, pos(&p)),
+                other => {
+                    let d = format!("{other:?}");
+                    let v: String = d.chars().take_while(|c| c.is_alphanumeric()).collect();
+                    format!("err:other:{v}")
+                }
             }
         }
     }
@@ -412,6 +447,27 @@ async fn main() {
                 }
             }
             let _ = writeln!(so, "n={n} calls={calls} bad={bad}{listed}");
+            let _ = so.flush();
+        } else if f.len() == 3 && f[0] == "K" {
+            let line = unesc(f[2]);
+            let fl: Vec<char> = f[1].chars().collect();
+            let (eg, shm) = (fl.first() == Some(&'1'), fl.get(1) == Some(&'1'));
+            if let Ok(mut c) = CURRENT.lock() {
+                c.clear();
+                let _ = write!(c, "{} tok 0", esc(&line));
+            }
+            CASE_STARTED_MS.store(now_ms(), Ordering::SeqCst);
+            let r = std::panic::catch_unwind(|| tok_canonical(&line, eg, shm));
+            CASE_STARTED_MS.store(0, Ordering::SeqCst);
+            let out = match r {
+                Ok(s) => s,
+                Err(e) => panic_msg(e),
+            };
+            let _ = writeln!(so, "{out}");
+            let _ = so.flush();
+        } else if f.len() == 1 && f[0] == "KO" {
+            let o = shell.parser_options().tokenizer_options();
+            let _ = writeln!(so, "{}{}", u8::from(o.enable_extended_globbing), u8::from(o.sh_mode));
             let _ = so.flush();
         } else if f.len() == 2 && f[0] == "T" {
             let line = unesc(f[1]);
